@@ -28,6 +28,7 @@ Mirrors, path by path,
 * `fatal_impl.hpp`                                                          : `P.parse (.fatal ..)`
 * `skipper/epsilon_impl.hpp`, `skipper/sequence_impl.hpp`,
   `skipper/repetition_impl.hpp`                                             : `Sk.skip`
+* `skipper/basic_space.hpp`, `space_set.hpp`                                : `Sk.space`
 * `error_add.hpp` (`operator+`: concatenation, fatal if either is)          : `PError.add`
 * `phrase_parse.hpp` (skipper first; function-try-block)                    : `TS.phrase`
 * `phrase_parse_stream.hpp`, `parse_stream.hpp`, `grammar_parse_stream.hpp`
@@ -168,6 +169,9 @@ inductive Sk where
   | seq (l r : Sk)
   | rep (s : Sk)
   deriving Repr, DecidableEq, Inhabited
+
+/-- `skipper::basic_space<Ch>()` = `*basic_char_set{space_set<Ch>()}` (space, newline, tab) -/
+def Sk.space : Sk := .rep (.cset [32, 10, 9])
 
 def Sk.skip : Sk → TS → Out
   | .eps, x => (x, .ok (.ok ()))
